@@ -45,13 +45,29 @@ Definition py_in {A} (eqb : A -> A -> bool) (x : A) (xs : list A) : bool := exis
 
 (** ** sets, represented by duplicate-free lists in an UNSPECIFIED order.  No generated function
     may depend on the order of such a list unless it goes through an explicit order oracle. *)
+Definition pyset (A : Type) : Type := list A.
+
 Definition set_union {A} (eqb : A -> A -> bool) (a b : list A) : list A :=
   a ++ filter (fun x => negb (py_in eqb x a)) b.
 
+(** [set(l)]: the last occurrence of each element is kept (as [List.nodup]) *)
 Fixpoint set_of_list {A} (eqb : A -> A -> bool) (l : list A) : list A :=
   match l with
   | [] => []
-  | x :: r => let s := set_of_list eqb r in if py_in eqb x s then s else x :: s
+  | x :: r => if py_in eqb x r then set_of_list eqb r else x :: set_of_list eqb r
+  end.
+
+(** [a.intersection(b)], [a - b] *)
+Definition set_inter {A} (eqb : A -> A -> bool) (a b : list A) : list A :=
+  filter (fun x => py_in eqb x b) a.
+Definition set_diff {A} (eqb : A -> A -> bool) (a b : list A) : list A :=
+  filter (fun x => negb (py_in eqb x b)) a.
+
+(** ** [functools.reduce(f, xs)] without initial value: TypeError on an empty list *)
+Definition py_reduce {A} (f : A -> A -> A) (xs : list A) : option A :=
+  match xs with
+  | [] => None
+  | x :: r => Some (fold_left f r x)
   end.
 
 (** ** option monad of the partial (exception-raising) functions *)
@@ -66,4 +82,22 @@ Fixpoint omap {A B} (f : A -> option B) (xs : list A) : option (list B) :=
               | None => None
               | Some y => match omap f r with None => None | Some ys => Some (y :: ys) end
               end
+  end.
+
+(** the same with a counter threaded through *)
+Fixpoint omap_st {A B S} (f : A -> S -> option (B * S)) (xs : list A) (s : S) : option (list B * S) :=
+  match xs with
+  | [] => Some ([], s)
+  | x :: r => match f x s with
+              | None => None
+              | Some (y, s1) => match omap_st f r s1 with None => None | Some (ys, s2) => Some (y :: ys, s2) end
+              end
+  end.
+
+(** [for x in xs: <body that may raise>]: the variables the body assigns (and the counter) are the
+    accumulator *)
+Fixpoint ofold {A B} (f : B -> A -> option B) (xs : list A) (acc : B) : option B :=
+  match xs with
+  | [] => Some acc
+  | x :: r => match f acc x with None => None | Some acc1 => ofold f r acc1 end
   end.
